@@ -165,7 +165,7 @@ pub fn run(ctx: &Ctx) {
     ctx.assume("the 64-byte allowance covers the <=16-byte header, CRC-16, byte alignment and <= 5 bytes of subframe header / wasted-bit unary per channel");
     let t = ctx.tier;
     let eng = Expansion { name: "expansion-hostile" };
-    ctx.regress(&eng);
+    ctx.regress_named(&eng, &["expansion-hostile-large"]);
     let n = match t {
         Tier::Quick => 30_000,
         Tier::Thorough => 1_200_000,
